@@ -786,9 +786,21 @@ class Run:
             fs = tuple((n, d[n]) for n in order)  # (evaluated in source order, listed in definition order)
         return ("ctor", name, tuple(v for _, v in fs))
 
+    @staticmethod
+    def _no_usize(x):
+        """an index (or a bound of an index range) with its widening `as usize` casts removed"""
+        if not isinstance(x, dict):
+            return x
+        while x.get("k") in ("Cast", "Paren") and (x.get("k") == "Paren" or x["ty"].replace(" ", "") == "usize"):
+            x = x["e"]
+        if x.get("k") == "Range":
+            x = dict(x, lo=Run._no_usize(x.get("lo")), hi=Run._no_usize(x.get("hi")))
+        return x
+
     def e_Index(self, e, env):
         b = self.eval(e["e"], env)
-        i = self.resolve(self.eval(e["i"], env)) if e["i"]["k"] != "Range" else ("unk", show_env(e["i"], env))
+        ix = self._no_usize(e["i"])
+        i = self.resolve(self.eval(ix, env)) if ix["k"] != "Range" else ("unk", show_env(ix, env))
         if isinstance(b, tuple) and b[0] == "tuple" and isinstance(i, int):
             return b[1][i]
         return ("unk", "%s[%s]" % (showv(b), showv(i)))
@@ -1054,7 +1066,59 @@ class Run:
                 cur = nxt
         return stmts, cur
 
+    def _index_loop(self, e):
+        """`for i in 0..N { .. X[i] .. }` where the counter is used only to index one base -> `for it in X[..N] { .. it .. }`"""
+        it, pat = e["iter"], e["pat"]
+        while it.get("k") == "Paren":
+            it = it["e"]
+        if it.get("k") != "Range" or pat.get("k") != "PIdent" or it.get("closed") or it.get("hi") is None:
+            return None
+        lo = it.get("lo")
+        if not (lo is not None and lo.get("k") == "Lit" and str(lo.get("v")) == "0"):
+            return None
+        name = pat["name"]
+        bases, other = [], [0]
+        from .ast import walk
+
+        def is_counter(x):
+            x = self._no_usize(x)
+            while x.get("k") in ("Cast", "Paren"):
+                x = x["e"]
+            return x.get("k") == "Path" and x["path"] == name
+
+        def f(n):
+            if n.get("k") == "Index" and is_counter(n["i"]):
+                bases.append(n["e"])
+                return False
+            if n.get("k") == "Path" and n["path"] == name:
+                other[0] += 1
+            if n.get("k") == "Closure":
+                return None
+        walk(e["body"], f)
+        if not bases or other[0] or len({show(b) for b in bases}) != 1:
+            return None
+        base = bases[0]
+        if base.get("k") not in ("Path", "Field", "MethodCall", "Unary", "Ref"):
+            return None
+        Run._stage_n += 1
+        el = "__el%d" % Run._stage_n
+
+        def tr(n):
+            if isinstance(n, list):
+                return [tr(x) for x in n]
+            if not isinstance(n, dict):
+                return n
+            if n.get("k") == "Index" and is_counter(n["i"]):
+                return {"k": "Path", "path": el, "generics": None, "qself": None}
+            return {k2: tr(v) for k2, v in n.items()}
+        hi = self._no_usize(it["hi"])
+        src = {"k": "Index", "e": base, "i": {"k": "Range", "lo": None, "hi": hi, "closed": False}}
+        return {"k": "For", "pat": {"k": "PIdent", "name": el, "sub": None, "byref": False, "mut": False}, "iter": src, "body": tr(e["body"]), "label": e.get("label")}
+
     def e_For(self, e, env):
+        il = self._index_loop(e)
+        if il is not None:
+            return self.e_For(il, env)
         src, stages = self._peel_stages(e["iter"]) if e["iter"].get("k") == "MethodCall" else (e["iter"], [])
         if stages:
             # `for x in SRC.filter(c).map(f) { B }` is `for it in SRC { if !c(it) { continue }; let x = f(it); B }`
